@@ -3,10 +3,9 @@ use crate::countminsketch::verif::SymBH;
 use crate::verif_sym::{any, assume, harness, vcover};
 
 type BF = BloomFilter<u8, SymBH>;
-const M: usize = 7;
 const K: usize = 2;
 
-fn arbitrary_filter(bh: &SymBH) -> (BF, [bool; M]) {
+fn arbitrary_filter<const M: usize>(bh: &SymBH) -> (BF, [bool; M]) {
     let mut bf = BF::with_params_and_hash(M, K, bh.clone());
     assert!(bf.bs.len() == M, "C11 exactly m bits");
     let mut bits = [false; M];
@@ -15,11 +14,9 @@ fn arbitrary_filter(bh: &SymBH) -> (BF, [bool; M]) {
     (bf, bits)
 }
 
-harness! {
-    #[kani::unwind(9)]
-    fn c01_bloom_insert_query_step() {
+fn insert_query_step<const M: usize>() {
         let bh = SymBH::new();
-        let (mut bf, bits) = arbitrary_filter(&bh);
+        let (mut bf, bits) = arbitrary_filter::<M>(&bh);
         let x: u8 = any();
         let y: u8 = any();
         assume(x < 3 && y < 3);
@@ -38,15 +35,17 @@ harness! {
         if qy0 { assert!(bf.query(&y), "C01 inserting another element never removes a member"); }
         assert!(bf.bs.len() == M, "C11 insert does not grow the bit array");
         vcover!(p0 == p1, "both hash functions collide");
-    }
 }
+harness! { #[kani::unwind(10)] fn c01_bloom_insert_query_step_m8() { insert_query_step::<8>(); } }
+harness! { #[kani::unwind(9)] fn c01_bloom_insert_query_step_m7() { insert_query_step::<7>(); } }
 
 harness! {
     #[kani::unwind(9)]
     fn c06_bloom_union_clear_step() {
+        const M: usize = 7;
         let bh = SymBH::new();
-        let (mut a, ba) = arbitrary_filter(&bh);
-        let (b, bb) = arbitrary_filter(&bh);
+        let (mut a, ba) = arbitrary_filter::<M>(&bh);
+        let (b, bb) = arbitrary_filter::<M>(&bh);
         a.union(&b).unwrap();
         let mut any_set = false;
         let mut i = 0;
